@@ -8,6 +8,7 @@ import (
 	"sync"
 	"sync/atomic"
 	"testing"
+	"time"
 
 	"pgregory.net/rapid"
 	"verif/harness/lib/evid"
@@ -31,13 +32,13 @@ type bigShared struct {
 func TestBigSegmentReadersFreeRunning(t *testing.T) {
 	t.Parallel()
 	evid.Rule(ruleText)
-	evid.Checks(6, 60)
+	evid.Checks(4, 40)
 	rapid.Check(t, func(rt *rapid.T) {
 		c := &caseSpec{FlushAt: -1, Fragment: 1, Path: "/big/free", ASC: audioConfigs[0].asc, Rate: audioConfigs[0].rate}
 		ps := repoParamSets[rapid.IntRange(0, len(repoParamSets)-1).Draw(rt, "paramSet")]
 		c.SPS, c.PPS = b64hex(ps[0]), b64hex(ps[1])
 		g := &caseGen{rt: rt, c: c, F: 90000, cad: 1920, psMode: "sprop"}
-		for k := rapid.IntRange(8, 12).Draw(rt, "gops"); k > 0; k-- {
+		for k := rapid.IntRange(7, 10).Draw(rt, "gops"); k > 0; k-- {
 			g.bigGop(rapid.SampledFrom([]int{1, 1, 0, 2}).Draw(rt, "class"))
 		}
 		readers := rapid.IntRange(2, 4).Draw(rt, "readers")
@@ -60,7 +61,7 @@ func TestBigSegmentReadersFreeRunning(t *testing.T) {
 				for !sh.stopped.Load() && sh.failed.Load() == nil {
 					cur := int(sh.last.Load())
 					if cur < 3 {
-						runtime.Gosched()
+						time.Sleep(20 * time.Microsecond)
 						continue
 					}
 					seq := cur - 2 // the oldest one listed
@@ -70,11 +71,11 @@ func TestBigSegmentReadersFreeRunning(t *testing.T) {
 					}
 					// wait for the window to roll past it and the writer to go on writing
 					for int(sh.last.Load()) < cur+rolls[i] && !sh.stopped.Load() {
-						runtime.Gosched()
+						time.Sleep(20 * time.Microsecond) // a state-based wait; sleeping only keeps it from burning a core
 					}
 					at := sh.ops.Load()
 					for sh.ops.Load() == at && !sh.stopped.Load() {
-						runtime.Gosched()
+						time.Sleep(20 * time.Microsecond)
 					}
 					got, rerr := io.ReadAll(r)
 					sh.mu.RLock()
